@@ -5,6 +5,7 @@ import (
 	"fmt"
 	"io"
 	"log/slog"
+	"net/netip"
 	"os"
 	"runtime"
 	"sort"
@@ -142,6 +143,8 @@ func protect(fn func()) (p any) {
 	fn()
 	return nil
 }
+
+func mustAddr(s string) netip.Addr { return netip.MustParseAddr(s) }
 
 func mustNetRule(text string, id int) *rules.NetworkRule {
 	r, err := rules.NewNetworkRule(text, id)
